@@ -12,9 +12,10 @@ done
 if git diff --name-only --diff-filter=U | grep -q .; then echo "UNRESOLVED:"; git diff --name-only --diff-filter=U; exit 1; fi
 git commit --no-edit -q 2>/dev/null
 tools/gen_manifest.py
+git add -A MANIFEST.json known_findings.json; git commit -qm "regenerate MANIFEST.json / known_findings.json after merging $g" 2>/dev/null
 cd /repo
 for c in $(git log --reverse --format=%h main..fix-$g); do
   subj=$(git log -1 --format=%s $c)
   if git log --format=%s main | grep -qxF "$subj"; then echo "already picked: $subj"; continue; fi
-  case "$subj" in fix:*) git cherry-pick $c >/dev/null 2>&1 && echo "picked $c $subj" || { echo "CONFLICT picking $c $subj"; git cherry-pick --abort; };; *) echo "skipping non-fix commit $c $subj";; esac
+  case "$subj" in fix:*) git show $c -- python | git apply --index && git commit -q -m "$(git log -1 --format=%B $c)" && echo "picked $c $subj" || { echo "CONFLICT picking $c $subj"; git checkout -q -- .; };; *) echo "skipping non-fix commit $c $subj";; esac
 done
